@@ -14,17 +14,44 @@
 void harness(void) {
 	ini_p ini;
 
+#ifdef VF_INI_FRESH_STORE
+	/* the state ini_create() produces: no table, no lines */
+	ini = (ini_p)malloc(sizeof(ini_t));
+	VF_ASSUME(ini != NULL);
+	ini->lines = NULL;
+	ini->lines_count = 0;
+	ini->lines_allocated = 0;
+#else
 	VF_INI_SYM_STORE(ini);
+#endif
 	VF_ASSERT(vf_ini_wf(ini), "harness-built store satisfies the representation invariant");
 	VF_NONDET(size_t, buf_size);
 	VF_NONDET(uint8_t, buf_null);
 	VF_NONDET(size_t, ghost_k);
 	VF_NONDET_BYTES(text, VF_INI_TEXT);
+#ifdef VF_INI_TEXT_EXACT
+	/* concrete length (one job per length): the text object has a constant size; a heap
+	 * object of symbolic size is an unbounded array for CBMC and the parser's byte reads at
+	 * symbolic offsets then cost quadratically (27 M variables for one 8-byte line) */
+	VF_ASSUME(buf_size == VF_INI_TEXT);
+	uint8_t *buf = buf_null ? NULL : (uint8_t *)malloc(VF_INI_TEXT);
+#else
 	VF_ASSUME(buf_size <= VF_INI_TEXT);
 	uint8_t *buf = buf_null ? NULL : (uint8_t *)malloc(buf_size);
+#endif
 	VF_ASSUME(buf_null || buf != NULL);
+#ifdef VF_REPLAY
 	if (buf != NULL)
 		memcpy(buf, text.b, buf_size);
+#else
+	if (buf != NULL && VF_INI_TEXT != 0) /* symbolic content, recorded for the replay */
+		*(struct vf_bytes_text *)buf = text;
+#endif
+#ifdef VF_INI_ONE_LINE
+	/* at most one line: no LF except as the very last byte */
+	for (size_t q = 0; q + 1 < buf_size; q ++)
+		VF_ASSUME(text.b[q] != 0x0a);
+#endif
 	size_t old_count = ini->lines_count;
 	vf_ini_gk = ghost_k;
 	int r = ini_buf_parse(ini, buf, buf_size);
